@@ -170,6 +170,38 @@ func init() {
 		return aggReport(x, orig, passed)
 	})
 
+	// aggmany <fn> w n k1 k2 : an aggregate over a LONG list of n small bitmaps built here (not named): bitmap i holds the two common
+	// values k1<<16|1 and k2<<16|2 and the two own values k1<<16|(10+i%60000), k2<<16|(10+i%50000).  Output: digest of the result.
+	reg("aggmany", func(e *env, a []string) string {
+		need(a, 5)
+		w, n := aggWorkers(a[1]), int(u64(a[2]))
+		k1, k2 := uint32(u64(a[3])), uint32(u64(a[4]))
+		if n < 1 || n > 1<<18 || k1 > 65535 || k2 > 65535 || k1 == k2 {
+			panic(skipErr{"domain"})
+		}
+		list := make([]*roaring.Bitmap, n)
+		for i := range list {
+			list[i] = roaring.BitmapOf(k1<<16|1, k2<<16|2, k1<<16|uint32(10+i%60000), k2<<16|uint32(10+i%50000))
+		}
+		var y *roaring.Bitmap
+		switch a[0] {
+		case "fastor":
+			y = roaring.FastOr(list...)
+		case "fastand":
+			y = roaring.FastAnd(list...)
+		case "heapor":
+			y = roaring.HeapOr(list...)
+		case "paror", "parand", "parheapor":
+			y = parFns[a[0]](w, list...)
+		default:
+			panic(skipErr{"function"})
+		}
+		v := "valid=ok"
+		if err := y.Validate(); err != nil {
+			v = "valid=no:" + spaceless(err.Error())
+		}
+		return d32(y) + " " + v
+	})
 	// aggindep y a res|in: y was produced by an aggregate from inputs including a.  For every chunk of a, with m = the
 	// smallest member of a in that chunk and g = the first value after m absent from a (if still inside the chunk):
 	// Add(g) then Remove(m) on the target (res: the result y; in: the input a) - single-value updates, which work in
